@@ -279,7 +279,7 @@ Section Near.
           rewrite rev_involutive in H. exact H. }
         assert (Hhd : hd (0, 0)%Z r = first /\ r <> []).
         { assert (Hne : pop_r (fun a => near_equal a first maxd) (rev r0) <> []).
-          { apply pop_r_nonempty. unfold r0. cbn [rev]. destruct (rev _); discriminate. }
+          { apply pop_r_nonempty. unfold r0. cbn [rev]. intros H. apply app_eq_nil in H. destruct H as [_ H]. discriminate H. }
           pose proof (pop_r_last (fun a => near_equal a first maxd) (rev r0) (0, 0)%Z) as Hl.
           rewrite last_rev_hd in Hl. unfold r0 in Hl at 2. cbn [hd] in Hl.
           split.
@@ -295,7 +295,7 @@ Section Near.
         destruct (pop_r (fun a => near_equal a first maxd) (rev r0)) as [|a t'] eqn:Ep; [cbn in Hlen; lia|].
         cbn [hd]. unfold near.
         assert (Ht : t' <> []) by (destruct t'; [cbn in Hlen; lia|discriminate]).
-        pose proof (pop_r_head _ _ _ _ Ep Ht) as Hf. cbn in Hf. congruence.
+        pose proof (pop_r_head _ _ _ _ Ep Ht) as Hf. cbv beta in Hf. congruence.
       + exists r0. split; [reflexivity|]. split; [exact H1|]. split; [exact H2|]. split; [reflexivity|].
         split; [|discriminate]. intros _ x [->|Hin]; [left; left; reflexivity|].
         destruct (strip_near_from_dropped first t x Hin) as [H|H]; [left; right; exact H|right; exact H].
@@ -366,10 +366,11 @@ Section Bounds.
     forall q, In q t -> a0 <= px q <= a1 /\ b0 <= py q <= b1.
   Proof.
     induction t as [|q t IH]; intros x0 y0 x1 y1 a0 b0 a1 b1 H; cbn [fold_left] in H.
-    - inversion H; subst. repeat split; try lia; intros q [].
+    - inversion H; subst. split; [lia|]. split; [lia|]. split; [lia|]. split; [lia|]. intros q' [].
     - rewrite bounds_step_minmax in H. unfold minmax_step in H.
       destruct (IH _ _ _ _ _ _ _ _ H) as (H1 & H2 & H3 & H4 & H5).
-      repeat split; try lia; destruct H0 as [->|Hin]; try lia; apply (H5 _ Hin).
+      split; [lia|]. split; [lia|]. split; [lia|]. split; [lia|].
+      intros q' [->|Hin]; [lia|apply (H5 _ Hin)].
   Qed.
 
   Theorem get_bounds_contains p l t r b :
